@@ -426,7 +426,7 @@ def write_dim_file(path, fmt, orient, header, name, items, sheets):
         return "the dims"
 
 
-ITEM_LISTS = {int: [[2005], [2001, 1999], [3, 1, 2], [2020, 2030, 2025], [7, 2000, 5], [5, 4, 3, 2, 1, 0], [0, 1]], str: [["only"], ["b", "a"], ["x y", "z", "w"], ["10", "9", "8"], ["steel", "316", "copper"], ["north", "Region", "south"], ["r", "s", "t"]]}  # last str list: a text item first, then a number-like one
+ITEM_LISTS = {int: [[2005], [2001, 1999], [3, 1, 2], [2020, 2030, 2025], [7, 2000, 5], [5, 4, 3, 2, 1, 0], [0, 1], [-1, 0, 1]], str: [["only"], ["b", "a"], ["x y", "z", "w"], ["10", "9", "8"], ["steel", "316", "copper"], ["north", "Region", "south"], ["r", "s", "t"], ["01", "02", "NA"]]}  # last str list: a text item first, then a number-like one
 
 
 def run_dimfile_case(fmt, orient, header, dtype_name, li, sheets):
@@ -517,6 +517,19 @@ def run_system_files_case(fmt, sheets_named, header, flags):
             parameters=[ParameterDefinition(name=nm, dim_letters=tuple(a)) for nm, a in plist.items()],
         )
         kw = dict(allow_missing_parameter_values=flags[0], allow_extra_parameter_values=flags[1])
+        if sheets_named == "partial":
+            # only ONE dimension and ONE parameter have their sheet named (they are the second sheet of their files);
+            # every other file is read from its first sheet
+            for l in "tq":
+                path = os.path.join(tmp, f"dim_{l}.{ext}")
+                write_dim_file(path, fmt, "column", header, NAMES[l], ITEMS[l], "first-of-several")
+            dsheets = {NAMES["p"]: dsheets[NAMES["p"]]}
+            for nm in ("beta", "gamma"):
+                df0 = pd.read_excel(pfiles[nm], sheet_name="values")
+                with pd.ExcelWriter(pfiles[nm]) as w:
+                    df0.to_excel(w, sheet_name="values", index=False)
+                    pd.DataFrame({"x": [1]}).to_excel(w, sheet_name="other", index=False)
+            psheets = {"alpha": "values"}
         if fmt == "csv":
             st, mfa = attempt(lambda: flodym.MFASystem.from_csv(defn, dfiles, pfiles, **kw))
         else:
@@ -634,13 +647,13 @@ def run_unit(u):
     elif k == "dimfiles":
         for header in (False, True):
             for dt in ("int", "str"):
-                for li in range(7):  # (text lists 5 and 6: the dimension's own name as an item; its letter "r" as first item)
+                for li in range(8):  # (text list 7: leading zeros and the text "NA")  # (text lists 5 and 6: the dimension's own name as an item; its letter "r" as first item)
                     for sheets in (("single",) if u["fmt"] == "csv" else ("single", "first-of-several", "named-second")):
                         rec(*run_dimfile_case(u["fmt"], u["orient"], header, dt, li, sheets))
         if u["fmt"] == "excel" and u["orient"] == "row":
             res["samples"].append(dict(kind="dimfile", fmt="excel", orient="row", header=True, dtype="int", items=[3, 1, 2], sheets="first-of-several", meaning="one-row sheet 'Region,3,1,2' as first of two sheets, no sheet named: items must be [3,1,2] as ints, in file order"))
     else:
-        for sheets_named in ((False,) if u["fmt"] == "csv" else (False, True)):
+        for sheets_named in ((False,) if u["fmt"] == "csv" else (False, True, "partial")):
             for header in (False, True):
                 for flags in ((False, False), (True, False), (False, True), (True, True)):
                     rec(*run_system_files_case(u["fmt"], sheets_named, header, flags))
